@@ -5201,7 +5201,7 @@ func (jmp iterNext) exec(vm *vm) {
 		l := len(vm.iterStack) - 1
 		vm.iterStack[l] = iterStackItem{}
 		vm.iterStack = vm.iterStack[:l]
-		vm.throw(ex.val)
+		vm.throw(ex)
 		return
 	}
 }
@@ -5219,7 +5219,7 @@ func (iterGetNextOrUndef) exec(vm *vm) {
 			l := len(vm.iterStack) - 1
 			vm.iterStack[l] = iterStackItem{}
 			vm.iterStack = vm.iterStack[:l]
-			vm.throw(ex.val)
+			vm.throw(ex)
 			return
 		}
 	}
